@@ -14,6 +14,7 @@ func init() { register("C04", checkC04) }
 func checkC04(p *Prog, r *Report) {
 	c04Errors(p, r)
 	c04Readers(p, r)
+	c04Carried(p, r)
 	c04Expected(p, r)
 	c04Pipeline(p, r)
 	c04Transform(p, r)
@@ -127,8 +128,11 @@ func c04Readers(p *Prog, r *Report) {
 				for _, q := range x.Events {
 					if q.Kind == "return" && q.InLoop(L) && len(q.Rets) > 0 && !isNilPoly(q.Rets[len(q.Rets)-1]) {
 						for _, g := range flattenGuards(q.Guards) {
-							if g.Kind == "cmp" && g.Op == token.NEQ && g.P.Equal(gap.P) {
-								ret = true
+							// the failing side may be one alternative of a wider rejection (counter mismatch OR date not consecutive)
+							for _, alt := range disjuncts(g) {
+								if alt.Kind == "cmp" && alt.Op == token.NEQ && alt.P.Equal(gap.P) {
+									ret = true
+								}
 							}
 						}
 					}
@@ -718,6 +722,8 @@ func c04Expected(p *Prog, r *Report) {
 				first := e.HasGuard(func(c *Cond) bool { return c.Kind == "opq" && strings.HasPrefix(c.Text, "first@") })
 				if first {
 					how = "seeded from the record's date under the first-record flag"
+				} else if carriedDate[key] {
+					how = "re-seeded from the record's date; harmless here because the gap test also compares the record's date with the previous record's date (C04.R2c carried-date)"
 				} else {
 					ok, how = false, "re-seeded from the record's own date ("+clip(e.Val.String(), 60)+") outside the first-record case: the consecutive-day test then compares the date with itself and a gap (e.g. across New Year) is accepted"
 				}
@@ -878,4 +884,149 @@ func sentinelFallback(p *Prog, r *Report, rule string) {
 		r.Ob("fallback:"+root, pos, found, fmt.Sprintf("%s[y][day]: final fallback 'sentinel → 0' that depends only on the value itself: %v", root, found))
 	}
 	r.Note("mean air temperature and saturation deficit have no such fallback on this tree: two consecutive missing days keep the sentinel (observation, not claimed)")
+}
+
+// ---------------------------------------------------------------- R2c gaps at a year end, coverage of the period
+
+// c04Carried: the day counter of the date-keyed readers restarts at 1 on a
+// record dated 1 January, so days missing BEFORE that record (the end of a
+// year, or whole years) are invisible to the counter test.  The gap test must
+// therefore also depend on something carried over from the previous record
+// that is never reset: the previous record's date.  And nothing in a reader
+// knows how far the file has to reach: that is the "covers" obligation.
+var carriedDate = map[string]bool{}
+
+func c04Carried(p *Prog, r *Report) {
+	r.Rule("C04.R2c", "gaps at a year end and coverage: in the date-keyed readers the test that rejects a gap also compares the record with a value carried from the previous record that is assigned from the record's date in every iteration and never reset (the day counter restarts on 1 January and cannot see days missing before it); every reader checks after its read loop that the data reach as far as they are needed", 2)
+	for _, key := range []string{"hermes.ReadWeatherCSV", "hermes.ReadWeatherCZ", "hermes.WetterK"} {
+		fi := p.Funcs[key]
+		if fi == nil {
+			r.Ob(short(key), "-", false, "reader not found")
+			continue
+		}
+		info := fi.Pkg.TypesInfo
+		var loop *ast.ForStmt
+		ast.Inspect(fi.Decl.Body, func(n ast.Node) bool {
+			if fs, ok := n.(*ast.ForStmt); ok && loop == nil && fs.Cond != nil {
+				scan := false
+				ast.Inspect(fs.Cond, func(m ast.Node) bool {
+					if se, ok := m.(*ast.SelectorExpr); ok && se.Sel.Name == "Scan" {
+						scan = true
+					}
+					return true
+				})
+				if scan {
+					loop = fs
+				}
+			}
+			return true
+		})
+		if loop == nil {
+			r.Ob(short(key)+":loop", p.Pos(fi.Decl.Pos()), false, "scanner-driven read loop not found")
+			continue
+		}
+		returnsErr := func(b *ast.BlockStmt) bool {
+			found := false
+			for _, s := range b.List {
+				if rs, ok := s.(*ast.ReturnStmt); ok && len(rs.Results) > 0 {
+					if id, ok := rs.Results[len(rs.Results)-1].(*ast.Ident); !ok || id.Name != "nil" {
+						found = true
+					}
+				}
+			}
+			return found
+		}
+		if key != "hermes.WetterK" {
+			// the gap test: an if in the loop body (top level) that returns an error and mentions the counter T
+			carried := false
+			detail := "gap test not found"
+			for _, s := range loop.Body.List {
+				ifs, ok := s.(*ast.IfStmt)
+				if !ok || !returnsErr(ifs.Body) {
+					continue
+				}
+				mentionsT := false
+				var cands []types.Object
+				ast.Inspect(ifs.Cond, func(m ast.Node) bool {
+					if id, ok := m.(*ast.Ident); ok {
+						if o := info.Uses[id]; o != nil {
+							if id.Name == "T" {
+								mentionsT = true
+							}
+							if v, ok := o.(*types.Var); ok && !v.IsField() && o.Pos() < loop.Pos() && o.Pos() > fi.Decl.Pos() {
+								cands = append(cands, o)
+							}
+						}
+					}
+					return true
+				})
+				if !mentionsT {
+					continue
+				}
+				detail = "the gap test depends only on the day counter, which restarts on 1 January: a record dated 1 January is accepted whatever came before it (30 November, or the 1 January of two years earlier)"
+				for _, o := range cands {
+					nAs, okAll := 0, true
+					ast.Inspect(loop.Body, func(m ast.Node) bool {
+						as, ok := m.(*ast.AssignStmt)
+						if !ok {
+							return true
+						}
+						for k, l := range as.Lhs {
+							lid, ok := l.(*ast.Ident)
+							if !ok || info.Uses[lid] != o || k >= len(as.Rhs) {
+								continue
+							}
+							nAs++
+							fromDate := false
+							ast.Inspect(as.Rhs[k], func(q ast.Node) bool {
+								if se, ok := q.(*ast.SelectorExpr); ok && se.Sel.Name == "datetime" {
+									fromDate = true
+								}
+								return true
+							})
+							if !fromDate {
+								okAll = false
+							}
+						}
+						return true
+					})
+					if nAs > 0 && okAll {
+						carried = true
+						detail = fmt.Sprintf("the gap test also compares the record with %s, which every iteration assigns from the record's date and nothing resets", o.Name())
+					}
+				}
+			}
+			carriedDate[key] = carried
+			r.Ob(short(key)+":carried-date", p.Pos(loop.Pos()), carried, detail)
+		}
+		// coverage: an error return between the end of the read loop and the normalisation
+		covers := false
+		after := false
+		for _, s := range fi.Decl.Body.List {
+			if s == ast.Stmt(loop) {
+				after = true
+				continue
+			}
+			if !after {
+				continue
+			}
+			if ifs, ok := s.(*ast.IfStmt); ok && returnsErr(ifs.Body) {
+				covers = true
+			}
+		}
+		r.Ob(short(key)+":covers", p.Pos(loop.End()), covers, fmt.Sprintf("after the read loop the reader rejects data that end before they are needed (end of the year file / end of the simulation): %v — otherwise the year length becomes the last day read, the day loop turns to the next year early and every later day is driven by another date's record", covers))
+	}
+}
+
+
+// disjuncts flattens nested "or".
+func disjuncts(c *Cond) []*Cond {
+	if c.Kind == "or" {
+		var out []*Cond
+		for _, s := range c.Sub {
+			out = append(out, disjuncts(s)...)
+		}
+		return out
+	}
+	return []*Cond{c}
 }
